@@ -1,12 +1,13 @@
 import OZ.Drv.FungibleIO
-import OZ.Model.Gates
+import OZ.Model.GatesMon
 /-
 Driver for C16 (pause, allow / block lists, cap, migration flag).
 
-`op` runs the model (OZ.Gates) of the contract named by `kind=` in the sequence label and
-prints its observation. `mon` evaluates the property's conclusion directly on the
-IMPLEMENTATION's observations (it never calls the model's transition functions):
-  * an entry point declared pausable is rejected while the observed `paused` flag is set,
+`op` runs the model (OZ.Gates, through `OZ.Gates.Mon.stepM`) of the contract named by `kind=` in the
+sequence label and prints its observation (`obsLine` prints the fields of `OZ.Gates.Mon.stableOf`).
+`mon` evaluates the property's conclusion directly on the IMPLEMENTATION's observations (it never
+calls the model's transition functions):
+  * an entry point declared pausable is rejected while the ghost `paused` flag is set,
     `emergency_reset` is rejected while it is not, pause / unpause alternate, the flag only
     moves through an accepted pause / unpause by the owner;
   * every accepted transfer / transfer_from / approve / burn / burn_from had all its vetted
@@ -16,25 +17,21 @@ IMPLEMENTATION's observations (it never calls the model's transition functions):
   * total supply <= cap after every call of the capped token;
   * a migration completes only if an enable / upgrade happened since the last completion;
   * a rejected call changes nothing that is observed.
+
+This file only parses (`parseLabel`, `parseLine`, `parseObs`, `minitM`) and calls the monitor core
+`OZ.Gates.Mon.checkCore` (OZ/Model/GatesMon.lean), which OZ/Props/C16Mon.lean proves sound (it
+reports nothing on any observation sequence of the model, for all eight machines).
+Not covered by that theorem (string level, kept here): the parsers themselves (an absent or
+malformed field of an observation reads as its default; a rejected call is compared with the
+previous observation on the PARSED getters, i.e. every word of the line but the tag, `ev=`, `dem=`
+and `ret=`), and the skip of `harness-panic` lines in `check`.
 -/
 namespace OZ.Drv.C16
-open OZ.Drv OZ.Drv.FungibleIO OZ.Fungible OZ.Host OZ.Gates
-
-inductive St where
-  | ptok (s : PTok)
-  | pcnt (s : PCnt)
-  | alib (s : LTok)
-  | blib (s : LTok)
-  | aex (s : LEx)
-  | bex (s : LEx)
-  | cap (s : CTok)
-  | mig (s : Mig) (ver : Nat)     -- ver: 0 harness contract, 1 v1 example, 2 prebuilt v2 wasm
-  | bad
+open OZ.Drv OZ.Drv.FungibleIO OZ.Fungible OZ.Host OZ.Gates OZ.Gates.Mon
 
 structure M where
   cfg : Cfg
-  st : St
-  now : Nat
+  x : MSt
 
 structure Label where
   kind : String
@@ -54,33 +51,28 @@ def parseLabel (label : String) : Label :=
     minTemp := (kvNat? ws "min_temp").getD 1, start := (kvNat? ws "start").getD 100,
     maxTtl := (kvNat? ws "max_ttl").getD MAX_TTL }
 
-def ofExcept {α} (f : α → St) : Except Err α → St
-  | .ok a => f a
-  | .error _ => .bad
+def parseMKind (s : String) : MKind :=
+  match s with
+  | "ptok" => .ptok
+  | "pcnt" => .pcnt
+  | "alib" => .alib
+  | "blib" => .blib
+  | "aex" => .aex
+  | "bex" => .bex
+  | "cap" => .cap
+  | "mig" => .mig
+  | s => .other s
+
+/-- the parameters of a sequence, as both the model side (`initM`) and the monitor (`minitM`) read them -/
+def paramsOf (l : Label) : Params :=
+  { kind := parseMKind l.kind, owner := l.owner, mgr := l.mgr, init := l.init, cap := l.cap, ver := l.ver,
+    start := l.start }
 
 def initM (label : String) : M :=
   let l := parseLabel label
-  let st : St :=
-    if l.kind = "ptok" then ofExcept .ptok (PTok.construct l.start l.owner l.init)
-    else if l.kind = "pcnt" then .pcnt (PCnt.construct l.owner)
-    else if l.kind = "alib" then .alib (LTok.empty l.start)
-    else if l.kind = "blib" then .blib (LTok.empty l.start)
-    else if l.kind = "aex" then ofExcept .aex (AEx.construct l.start l.owner l.mgr l.init)
-    else if l.kind = "bex" then ofExcept .bex (BEx.construct l.start l.owner l.mgr l.init)
-    else if l.kind = "cap" then ofExcept .cap (CTok.construct l.start l.cap)
-    else if l.kind = "mig" then .mig (Mig.init l.owner) l.ver
-    else .bad
-  { cfg := ⟨l.minTemp, l.maxTtl⟩, st := st, now := l.start }
+  { cfg := ⟨l.minTemp, l.maxTtl⟩, x := OZ.Gates.Mon.initM (paramsOf l) }
 
 /-! ### op lines -/
-
-inductive GOp where
-  | tok (o : Fungible.Op)
-  | pause (c : Nat) | unpause (c : Nat) | increment | reset
-  | setList (u : Nat) (on : Bool) (operator : Option Nat)
-  | enable | ensure | complete
-  | migrate (d : Nat × Nat) (operator : Nat)
-  | upgrade (operator : Nat)
 
 def parseGate (ws : List String) : Option (List Nat × GOp) :=
   match ws with
@@ -128,240 +120,115 @@ def showG : GEvent → String
 
 def b01 (b : Bool) : String := if b then "1" else "0"
 
-def tokOf : St → Option Fungible.State
-  | .ptok s => some s.tok
-  | .alib s => some s.tok
-  | .blib s => some s.tok
-  | .aex s => some s.t.tok
-  | .bex s => some s.t.tok
-  | .cap s => some s.tok
-  | _ => none
-
-def logOf : St → List GEvent
-  | .ptok s => s.p.log
-  | .pcnt s => s.p.log
-  | .alib s => s.log
-  | .blib s => s.log
-  | .aex s => s.t.log
-  | .bex s => s.t.log
-  | _ => []
-
-def listStr (f : Nat → Bool) : String := String.join ((List.range N).map (fun i => b01 (f i)))
-
-def extra : St → String
-  | .ptok s => s!"paused={b01 s.p.paused}"
-  | .pcnt s => s!"counter={s.counter} paused={b01 s.p.paused}"
-  | .alib s => s!"list={listStr s.listed}"
-  | .blib s => s!"list={listStr s.listed}"
-  | .aex s => s!"list={listStr s.t.listed}"
-  | .bex s => s!"list={listStr s.t.listed}"
-  | .cap s => s!"cap={match s.cap with | some c => toString c | none => "?"}"
-  | .mig s ver =>
-    let d := match s.data with | some (a, b) => s!"{a}:{b}" | none => "-"
-    s!"migrating={b01 s.migrating} data={d} wasm={b01 (ver == 2)}"
+/-- the getters of the machine, taken from the structured observation `o = stableOf x` -/
+def extra (st : St) (o : Stable) : String :=
+  match st with
+  | .ptok _ => s!"paused={b01 o.paused}"
+  | .pcnt _ => s!"counter={o.counter} paused={b01 o.paused}"
+  | .alib _ => s!"list={String.join (o.list.map b01)}"
+  | .blib _ => s!"list={String.join (o.list.map b01)}"
+  | .aex _ => s!"list={String.join (o.list.map b01)}"
+  | .bex _ => s!"list={String.join (o.list.map b01)}"
+  | .cap _ => s!"cap={showCap o.cap}"
+  | .mig _ _ =>
+    let d := match o.data with | some (a, b) => s!"{a}:{b}" | none => "-"
+    s!"migrating={b01 o.migrating} data={d} wasm={b01 o.wasm}"
   | .bad => "bad"
 
-/-- who must authorize an accepted call -/
-def demandedBy (st : St) : GOp → List Nat
-  | .tok (.mint _ _) => match st with | .ptok s => [s.owner] | _ => []
-  | .tok o => o.required
-  | .pause c => [c]
-  | .unpause c => [c]
-  | .setList _ _ (some o) => [o]
-  | .migrate _ o => [o]
-  | .upgrade o => [o]
-  | _ => []
+/-- the observation line of model state `x`: every printed getter is a field of
+`OZ.Gates.Mon.stableOf x`, the structured observation of the monitor-soundness theorem -/
+def obsLine (tag : String) (x : MSt) (ret ev dem : String) : String :=
+  let o := stableOf x
+  match tokOf x.st with
+  | some _ => s!"{tag} {showSBA o.sup o.bal o.allow} now={o.now} ev={ev} dem={dem} {extra x.st o}"
+  | none => s!"{tag} ret={ret} now={o.now} ev={ev} dem={dem} {extra x.st o}"
 
-/-- the model's transition for one parsed op; `none` = rejected -/
-def applyModel (cfg : Cfg) (st : St) (auth : List Nat) (op : GOp) : Option St :=
-  let ok {α} (f : α → St) (r : Except Err α) : Option St :=
-    match r with | .ok a => some (f a) | .error _ => none
-  match st, op with
-  | .ptok s, .tok o => ok .ptok (PTok.apply cfg s auth (.tok o))
-  | .ptok s, .pause c => ok .ptok (PTok.apply cfg s auth (.pause c))
-  | .ptok s, .unpause c => ok .ptok (PTok.apply cfg s auth (.unpause c))
-  | .pcnt s, .tok (.advance _) => some (.pcnt s)
-  | .mig s v, .tok (.advance _) => some (.mig s v)
-  | .pcnt s, .increment => ok .pcnt (PCnt.apply s auth .increment)
-  | .pcnt s, .reset => ok .pcnt (PCnt.apply s auth .emergencyReset)
-  | .pcnt s, .pause c => ok .pcnt (PCnt.apply s auth (.pause c))
-  | .pcnt s, .unpause c => ok .pcnt (PCnt.apply s auth (.unpause c))
-  | .alib s, .tok o => ok .alib (ALib.apply cfg s auth (.tok o))
-  | .alib s, .setList u on _ => ok .alib (ALib.apply cfg s auth (.setList u on 0))
-  | .blib s, .tok o => ok .blib (BLib.apply cfg s auth (.tok o))
-  | .blib s, .setList u on _ => ok .blib (BLib.apply cfg s auth (.setList u on 0))
-  | .aex s, .tok o => ok .aex (AEx.apply cfg s auth (.tok o))
-  | .aex s, .setList u on (some o) => ok .aex (AEx.apply cfg s auth (.setList u on o))
-  | .bex s, .tok o => ok .bex (BEx.apply cfg s auth (.tok o))
-  | .bex s, .setList u on (some o) => ok .bex (BEx.apply cfg s auth (.setList u on o))
-  | .cap s, .tok o => ok .cap (CTok.apply cfg s auth o)
-  -- migration: which entry points the installed executable exposes
-  | .mig s 0, .enable => ok (.mig · 0) (Mig.apply s auth .enable)
-  | .mig s 0, .ensure => ok (.mig · 0) (Mig.apply s auth .ensure)
-  | .mig s 0, .complete => ok (.mig · 0) (Mig.apply s auth .complete)
-  | .mig _ 1, .migrate _ _ => none
-  | .mig s v, .migrate d o => ok (.mig · v) (Mig.apply s auth (.migrate d o))
-  | .mig s _, .upgrade o => ok (.mig · 2) (Mig.apply s auth (.upgrade 1 o))
-  | _, _ => none
-
-def retOf (st : St) (op : GOp) : String :=
-  match st, op with
-  | .pcnt s, .increment => toString s.counter
-  | _, _ => "-"
-
-def obsLine (tag : String) (st : St) (now : Nat) (ret ev dem : String) : String :=
-  match tokOf st with
-  | some t => s!"{tag} {showState t} now={t.now} ev={ev} dem={dem} {extra st}"
-  | none => s!"{tag} ret={ret} now={now} ev={ev} dem={dem} {extra st}"
-
+/-- one op line through the model (`OZ.Gates.Mon.stepM`); this function only parses the op and
+prints the observation -/
 def stepLine (m : M) (line : String) : M × String :=
   match parseAny line with
   | none => (m, "bad-op")
   | some (auth, op) =>
-    match applyModel m.cfg m.st auth op with
-    | some st' =>
-      let fev := match tokOf m.st, tokOf st' with
+    let r := stepM m.cfg m.x auth op
+    if r.2 then
+      let fev := match tokOf m.x.st, tokOf r.1.st with
         | some t, some t' => (t'.events.drop t.events.length).map showEvent
         | _, _ => []
-      let gev := ((logOf st').drop (logOf m.st).length).map showG
+      let gev := ((logOf r.1.st).drop (logOf m.x.st).length).map showG
       let evs := fev ++ gev
       let dem := match op with
         | .tok (.advance _) => "-"
-        | _ => showList toString ((demandedBy m.st op).mergeSort (· ≤ ·))
-      let now' := match op with
-        | .tok (.advance n) => m.now + n
-        | _ => m.now
-      ({ m with st := st', now := now' },
-        obsLine "ok" st' now' (retOf st' op) (if evs.isEmpty then "-" else ";".intercalate evs) dem)
-    | none => (m, obsLine "err" m.st m.now "-" "-" "-")
+        | _ => showList toString ((demandedBy m.x.st op).mergeSort (· ≤ ·))
+      ({ m with x := r.1 },
+        obsLine "ok" r.1 (retOf r.1.st op) (if evs.isEmpty then "-" else ";".intercalate evs) dem)
+    else (m, obsLine "err" m.x "-" "-" "-")
 
-/-! ### the monitor (implementation side) -/
+/-! ### the monitor (implementation side): parsing only -/
 
-structure Mon where
-  l : Label
-  paused : Bool               -- ghost flag: moved only by accepted pause / unpause calls
-  ghost : List Bool           -- list status per party, from accepted list changes only
-  credit : Bool               -- an enable / upgrade happened since the last completed migration
-  prev : Option String        -- previous observation minus tag, `ev=`, `dem=` and `ret=`
+def minitM (label : String) : Mon := monInit (paramsOf (parseLabel label))
 
-def minitM (label : String) : Mon :=
-  let l := parseLabel label
-  let g : List Bool := (List.range N).map (fun i => decide (l.kind = "aex" ∧ i = l.owner))
-  { l := l, paused := false, ghost := g, credit := false, prev := none }
+def parseGName (s : String) : GName :=
+  match s with
+  | "pause" => .pause
+  | "unpause" => .unpause
+  | "increment" => .increment
+  | "reset" => .reset
+  | "allow" => .allow
+  | "block" => .block
+  | "disallow" => .disallow
+  | "unblock" => .unblock
+  | "enable" => .enable
+  | "ensure" => .ensure
+  | "complete" => .complete
+  | "migrate" => .migrate
+  | "upgrade" => .upgrade
+  | s => .other s
 
-/-- the part of an observation that a rejected call must leave unchanged -/
-def stable (obs : String) : String :=
-  " ".intercalate (((words obs).drop 1).filter (fun w => ¬ (w.startsWith "ev=" ∨ w.startsWith "dem=" ∨ w.startsWith "ret=")))
+def parseCall (ws : List String) : Call :=
+  match ws.head?.getD "" with
+  | "fungible" => .fungible (parseKind ((ws.drop 1).head?.getD ""))
+  | "gate" => .gate (parseGName ((ws.drop 1).head?.getD ""))
+  | _ => .other
 
-def setAt (l : List Bool) (i : Nat) (v : Bool) : List Bool := l.mapIdx (fun j x => if j = i then v else x)
+/-- the op line as the monitor reads it (never fails: absent fields read as empty / 0) -/
+def parseLine (opl : String) : Line :=
+  let ws := words opl
+  { call := parseCall ws,
+    a := natList ((kv? ws "a").getD "-"),
+    auth := natList ((kv? ws "auth").getD "-"),
+    n := (kvNat? ws "n").getD 0 }
 
-def isPausableName (line : List String) : Bool :=
-  match line with
-  | "fungible" :: k :: _ => k = "mint" ∨ k = "transfer" ∨ k = "transfer_from" ∨ k = "burn" ∨ k = "burn_from"
-  | "gate" :: "increment" :: _ => true
-  | _ => false
+def parseData (s : String) : Option (Nat × Nat) :=
+  match s.splitOn ":" with
+  | [a, b] => do pure ((← a.toNat?), (← b.toNat?))
+  | _ => none
 
-/-- the vetted parties of a fungible op line: from/to of transfers, owner of approve, from of burns -/
-def vettedOf (kind : String) (a : List Nat) : List Nat :=
-  match kind, a with
-  | "transfer", [f, t] => [f, t]
-  | "transfer_from", [_, f, t] => [f, t]
-  | "approve", [o, _] => [o]
-  | "burn", [f] => [f]
-  | "burn_from", [_, f] => [f]
-  | _, _ => []
+/-- the observation line as the monitor reads it (never fails: absent fields read as defaults) -/
+def parseObs (obs : String) : Obs :=
+  let ows := words obs
+  let alS := (kv? ows "allow").getD "-"
+  { ok := ows.head? = some "ok",
+    st := {
+      sup := (kvInt? ows "sup").getD 0,
+      bal := intList ((kv? ows "bal").getD "-"),
+      allow := if alS = "-" then [] else (alS.splitOn ";").filterMap (fun t =>
+        match t.splitOn ":" with
+        | [o, s, a] => do pure ((← o.toNat?), (← s.toNat?), (← a.toInt?))
+        | _ => none),
+      now := (kvNat? ows "now").getD 0,
+      paused := (kv? ows "paused") == some "1",
+      counter := (kvInt? ows "counter").getD 0,
+      list := ((kv? ows "list").getD "").toList.map (· == '1'),
+      cap := (kv? ows "cap").bind String.toInt?,
+      migrating := (kv? ows "migrating") == some "1",
+      data := ((kv? ows "data").bind parseData),
+      wasm := (kv? ows "wasm") == some "1" } }
 
 def check (m : Mon) (opl obs : String) : Mon × Option String :=
   -- a sequence the harness could not run (e.g. the constructor trapped): no observation to judge;
   -- the line still breaks the correspondence because the model has no such answer
   if (words obs).any (· == "harness-panic") then (m, none) else
-  let ws := words opl
-  let ows := words obs
-  let ok := ows.head? = some "ok"
-  let kind := m.l.kind
-  let fam := ws.head?.getD ""
-  let name := (ws.drop 1).head?.getD ""
-  let a := natList ((kv? ws "a").getD "-")
-  let auth := natList ((kv? ws "auth").getD "-")
-  let pausedNow : Bool := (kv? ows "paused") == some "1"
-  let hasPause := kind = "ptok" ∨ kind = "pcnt"
-  let isList := kind = "alib" ∨ kind = "aex" ∨ kind = "blib" ∨ kind = "bex"
-  let allowKind := kind = "alib" ∨ kind = "aex"
-  let listNow : List Bool := ((kv? ows "list").getD "").toList.map (· == '1')
-  -- ghost list after this call
-  let ghost' : List Bool :=
-    if ok ∧ fam = "gate" ∧ isList then
-      match name, a.head? with
-      | "allow", some u => setAt m.ghost u true
-      | "block", some u => setAt m.ghost u true
-      | "disallow", some u => setAt m.ghost u false
-      | "unblock", some u => setAt m.ghost u false
-      | _, _ => m.ghost
-    else m.ghost
-  let credit' : Bool :=
-    if ok ∧ fam = "gate" ∧ (name = "enable" ∨ name = "upgrade") then true
-    else if ok ∧ fam = "gate" ∧ (name = "migrate" ∨ name = "complete") then false
-    else m.credit
-  let paused' : Bool :=
-    if ok ∧ hasPause ∧ fam = "gate" ∧ name = "pause" then true
-    else if ok ∧ hasPause ∧ fam = "gate" ∧ name = "unpause" then false
-    else m.paused
-  let idle : Bool := fam = "fungible" ∧ name = "advance"
-  let m' : Mon := { m with paused := paused', ghost := ghost', credit := credit',
-                           prev := some (stable obs) }
-  let sup := (kvInt? ows "sup").getD 0
-  let capv := (kv? ows "cap").getD "?"
-  let migratingNow : Bool := (kv? ows "migrating") == some "1"
-  let fail : Option String :=
-    -- a rejected call has no observable effect
-    if ¬ ok ∧ m.prev.isSome ∧ m.prev ≠ some (stable obs) then
-      some s!"site=gates.rollback.{kind} a rejected call changed the observed state"
-    -- pause
-    else if hasPause ∧ ok ∧ m.paused ∧ isPausableName ws then
-      some s!"site=pausable.bypass.{kind}.{name} a pausable entry point was accepted while paused"
-    else if hasPause ∧ ok ∧ ¬ m.paused ∧ fam = "gate" ∧ name = "reset" then
-      some "site=pausable.when_paused.reset emergency_reset accepted while not paused"
-    else if hasPause ∧ ok ∧ fam = "gate" ∧ name = "pause" ∧ m.paused then
-      some s!"site=pausable.alternate.{kind}.pause pause accepted while paused"
-    else if hasPause ∧ ok ∧ fam = "gate" ∧ name = "unpause" ∧ ¬ m.paused then
-      some s!"site=pausable.alternate.{kind}.unpause unpause accepted while not paused"
-    else if hasPause ∧ ok ∧ fam = "gate" ∧ (name = "pause" ∨ name = "unpause")
-        ∧ (a.head? ≠ some m.l.owner ∨ ¬ auth.contains m.l.owner) then
-      some s!"site=pausable.owner.{kind}.{name} accepted without the owner's authorization"
-    else if hasPause ∧ idle ∧ pausedNow ≠ paused' then
-      some s!"site=pause.idle.changed.{kind} paused() went from {m.paused} to {pausedNow} while nothing was called (ledger moved by {(kvNat? ws "n").getD 0})"
-    else if hasPause ∧ pausedNow ≠ paused' then
-      some s!"site=pausable.flag.{kind} paused() does not follow the accepted pause / unpause calls"
-    -- lists
-    else if isList ∧ idle ∧ listNow ≠ ghost' then
-      some s!"site=list.idle.changed.{kind} allowed()/blocked() went from {m.ghost} to {listNow} while nothing was called (ledger moved by {(kvNat? ws "n").getD 0})"
-    else if isList ∧ listNow ≠ ghost' then
-      some s!"site=list.getter.{kind} allowed()/blocked() = {listNow} but accepted list changes give {ghost'}"
-    else if isList ∧ ok ∧ fam = "fungible" ∧
-        (vettedOf name a).any (fun p => (m.ghost.getD p false) ≠ allowKind) then
-      some s!"site=list.bypass.{kind}.{name} accepted although a vetted party is {if allowKind then "not allowed" else "blocked"}"
-    else if isList ∧ ok ∧ fam = "gate" ∧ (kind = "aex" ∨ kind = "bex")
-        ∧ (a.getD 1 99 ≠ m.l.mgr ∨ ¬ auth.contains m.l.mgr) then
-      some s!"site=list.role.{kind}.{name} list changed without the manager's authorization"
-    -- cap
-    else if kind = "cap" ∧ idle ∧ capv ≠ toString m.l.cap then
-      some s!"site=cap.idle.changed the cap went from {m.l.cap} to {capv} while nothing was called (ledger moved by {(kvNat? ws "n").getD 0})"
-    else if kind = "cap" ∧ capv ≠ toString m.l.cap then
-      some s!"site=capped.cap the cap moved from {m.l.cap} to {capv}"
-    else if kind = "cap" ∧ sup > m.l.cap then
-      some s!"site=capped.exceeded total_supply {sup} > cap {m.l.cap}"
-    -- migration
-    else if kind = "mig" ∧ ok ∧ fam = "gate" ∧ (name = "migrate" ∨ name = "ensure") ∧ ¬ m.credit then
-      some s!"site=migration.without_upgrade.{name} accepted with no enable / upgrade since the last completion"
-    else if kind = "mig" ∧ idle ∧ migratingNow ≠ credit' then
-      some s!"site=migration.idle.changed Migrating went from {m.credit} to {migratingNow} while nothing was called (ledger moved by {(kvNat? ws "n").getD 0})"
-    else if kind = "mig" ∧ migratingNow ≠ credit' then
-      some s!"site=migration.flag Migrating = {migratingNow} but the accepted calls give {credit'}"
-    else if kind = "mig" ∧ ok ∧ fam = "gate" ∧ (name = "migrate" ∨ name = "upgrade")
-        ∧ (a.head? ≠ some m.l.owner ∨ ¬ auth.contains m.l.owner) then
-      some s!"site=migration.owner.{name} accepted without the owner's authorization"
-    else none
-  (m', fail)
+  checkCore m (parseLine opl) (parseObs obs)
 
 def machine : Machine where
   σ := M
